@@ -84,6 +84,12 @@ Section QuatProofs.
   Proof. intros. destruct a as [[a0 a1] a2], b as [[b0 b1] b2]. crunch. Qed.
   Lemma mapply_scal_id (c : R) (v : vec3) : mapply R (mscal R c (mid R)) v = vscal R c v.
   Proof. crunch. Qed.
+  Lemma mmul_mscal (x y : R) (a b : mat3) : mmul R (mscal R x a) (mscal R y b) = mscal R (x * y) (mmul R a b).
+  Proof. intros. destruct a as [[a0 a1] a2], b as [[b0 b1] b2]. crunch. Qed.
+  Lemma mopp_mscal (x : R) (a : mat3) : mopp R (mscal R x a) = mscal R x (mopp R a).
+  Proof. intros. destruct a as [[a0 a1] a2]. crunch. Qed.
+  Lemma mopp_mopp (a : mat3) : mopp R (mopp R a) = a.
+  Proof. intros. destruct a as [[a0 a1] a2]. crunch. Qed.
   Lemma mmul_id_l (a : mat3) : mmul R (mid R) a = a.
   Proof. intros. destruct a as [[a0 a1] a2]. crunch. Qed.
   Lemma mmul_id_r (a : mat3) : mmul R a (mid R) = a.
